@@ -201,7 +201,9 @@ func addTime(m map[string]Intrinsic) {
 		st := fn.Signature.Results().At(0).Type().(*types.Pointer).Elem()
 		val := vm.zero(st).(*StructV)
 		f := append([]Value(nil), val.F...)
-		f[0] = ChanV{Obj: vm.newObject(&ChanData{Cap: 1}, nil, "ticker.C")}
+		tc := ChanV{Obj: vm.newObject(&ChanData{Cap: 1}, nil, "ticker.C")}
+		f[0] = tc
+		vm.P.env["ticker.chan"] = tc
 		o := vm.newObject(&StructV{F: f}, st, "Ticker")
 		vm.P.env["ticker.interval"] = d
 		return PtrV{Obj: o}
@@ -215,6 +217,19 @@ func addTime(m map[string]Intrinsic) {
 		return nil
 	}
 	m["(*time.Ticker).Stop"] = nop
+	// vTick(): the most recently created ticker fires once
+	m["vocab.vTick"] = func(vm *VM, fn *ssa.Function, args []Value) Value {
+		c, ok := vm.P.env["ticker.chan"]
+		if !ok {
+			panic(vm.fail("vTick without a ticker"))
+		}
+		ch := c.(ChanV)
+		cd := ch.Obj.Val.(*ChanData)
+		if len(cd.Q) < cd.Cap {
+			vm.setObj(ch.Obj, &ChanData{Q: append(append([]Value(nil), cd.Q...), mkTime(vm.clockNow())), Cap: cd.Cap})
+		}
+		return nil
+	}
 	m["vocab.vTickerInterval"] = func(vm *VM, fn *ssa.Function, args []Value) Value {
 		if v, ok := vm.P.env["ticker.interval"]; ok {
 			return v
